@@ -67,7 +67,16 @@ RULE = ("One sub-check per generator family of mouette.procedural (all 20 public
         "display_duplicate_attribute_warning, export_edges_in_obj; 6/11 none; not drawn where the unchanged library fails, see "
         "config_excluded) and makes, between its two calls, a call of the same generator with an inadmissible argument "
         "(float resolution, wrong type, too few points: it normally raises); the config switches must be what the case set "
-        "after every call (<gen>:config-changed) and the edge container must be the set of face sides. non-trivial = two "
+        "after every call (<gen>:config-changed) and the edge container must be the set of face sides. Sizes around powers "
+        "of two: every factor pair with a*b in 250..262 (torus, sphere_uv, unit_grid; also (nu-1)(nv-1) in 255..257 and "
+        "2ab in 126..130) and N in {126..129, 254..258} for the one-resolution generators and chain / segment counts are "
+        "lattice points; sub-check 'big' holds 14 realised cases with 2**15 / 2**16-sized results (255x257, 256x256, 257x255 "
+        "tori, uv spheres and grids, N = 32767 / 32768 cylinders, 65536-vertex chains; one call each; all of them in every "
+        "thorough shard, one random case per quick shard). Reals close to special values: radius 1 +- 8e-6 / 1e-7 / 3e-10 "
+        "(also with the centre left at its default), torus radii 1 +- 8e-6 and ratio 0.3 +- 2e-6, cylinder length 1 +- 8e-6, "
+        "defects 1e-7, 1e-5, pi(1 +- 8e-6), max - 1e-7; integral reals passed as python int. dual_mesh, spherify_vertices "
+        "and cylindrify_edges get a third call on a NEW input object of the same element counts (rigidly moved copy) after "
+        "the first input was deleted and garbage collected. non-trivial = two "
         "resolutions differ, or a boolean switch / n_cover / mode / optional argument is not at its default, or (for "
         "generators without such parameters) a centre / radius differs from the default; distinct = distinct realised cases.")
 ASSUMPTIONS = [
@@ -206,6 +215,9 @@ def edit_in_place(m):
     return n
 
 
+_GC_FROZEN = []
+
+
 def two_calls(fn):
     """History of one case: call the generator, run the oracle, EDIT THE RETURNED MESH IN PLACE, call the generator again
     with the same caller-owned argument objects (radius halved / defect shifted by 4e-4 / defaults defaulted again), run the
@@ -269,15 +281,18 @@ def two_calls(fn):
             # possibly at the recycled address: a cache keyed by id(mesh) / id(array) would answer for the old one
             import gc
             ctx.label("new-input-after-gc")
-            for _ in range(2):
-                res1, res2, snap1, now1 = [], [], None, None
-                A.objs.clear()
-                A = None
+            if not _GC_FROZEN:
                 gc.collect()
-                A = Args()
-                case = sibling_case(case)
-                fn(case, RecordingCtx(ctx, [], "[call on a new input object of the same size, after the previous input was deleted and garbage collected] "), A)
-                A.check_unchanged(ctx, gen)
+                gc.freeze()          # long-lived harness objects (case lists, strategies) out of the collector's way
+                _GC_FROZEN.append(True)
+            res1, res2, snap1, now1 = [], [], None, None
+            A.objs.clear()
+            A = None
+            gc.collect()
+            A = Args()
+            case = sibling_case(case)
+            fn(case, RecordingCtx(ctx, [], "[call on a new input object of the same size, after the previous input was deleted and garbage collected] "), A)
+            A.check_unchanged(ctx, gen)
     run.__name__ = fn.__name__
     return run
 
@@ -1816,6 +1831,7 @@ FAMILIES.update({
 })
 
 
+RAW_FN = {name: fn for name, (lat, build, fn) in FAMILIES.items()}
 FAMILIES = {name: (lat, build, two_calls(fn)) for name, (lat, build, fn) in FAMILIES.items()}
 
 
@@ -1870,6 +1886,14 @@ def build_of(name):
 BIG_CASES = big_cases()
 
 
+def fn_big(case, ctx):
+    """one call + the full oracle (the two-call history is exercised at all smaller sizes)"""
+    ctx.label("family=" + case["family"])
+    A = Args()
+    RAW_FN[case["family"]](case, ctx, A)
+    A.check_unchanged(ctx, str(case.get("gen")))
+
+
 def fn_lattice(case, ctx):
     ctx.label("family=" + case["family"])
     FAMILIES[case["family"]][2](case, ctx)
@@ -1885,7 +1909,7 @@ SUBCHECKS = [SubCheck(name, family_strategy(name), FAMILIES[name][2], quick=3 * 
     # enumerates the whole lattice in every thorough shard (it stops by itself once the list is exhausted)
     SubCheck("lattice", st.sampled_from(LATTICE_CASES), fn_lattice, quick=len(LATTICE_CASES), thorough=len(LATTICE_CASES) + 50),
     # element counts around 2**16 / 2**15: every case in each thorough shard, one (random) case per quick shard
-    SubCheck("big", st.sampled_from(BIG_CASES), fn_lattice, quick=8, thorough=len(BIG_CASES) + 5, watchdog=(120, 300)),
+    SubCheck("big", st.sampled_from(BIG_CASES), fn_big, quick=8, thorough=len(BIG_CASES) + 5, watchdog=(120, 300)),
 ]
 
 
